@@ -524,6 +524,9 @@ def post_protocol(ctx, driver, res, replay_budget=3):
                 driver.log('   %s reached at step %s by schedule %s verdicts/init %s' % (hitname, q['hit'][1], q['schedule'], q.get('init')))
             else:
                 o['status'] = 'encoder-mismatch'
+                if os.environ.get('VERIF_KEEP_MISMATCH'):
+                    mp = ctx.keep_replay(str(hitname) + '-MISMATCH', 'VerifRun', inp, {'pkgdir': pkgdir, 'files': files, 'native_result': rr, 'cfg': res['cfg'], 'schedule': q['schedule']})
+                    driver.log('  mismatch kept at', mp)
                 ctx.notes.append('ENCODER-MISMATCH bmc %s: native=%s' % (label, str(rr)[:300]))
                 driver.log('ENCODER-MISMATCH bmc', label, str(rr)[:400])
         else:
